@@ -3,9 +3,9 @@ import ast
 
 from ..core import rule, Ctx
 from ..index import AnalysisError, dotted, src, walk_no_nested, names_in
-from ..cfg import CFG
+from ..cfg import CFG, eval3, UNK
 from ..domains import check_pred
-from ..util import node_calls, last_name
+from ..util import node_calls, last_name, reach_conds, mk_atoms
 from .slots import BTM, TAGGING, BINCOUNTS
 
 
@@ -53,15 +53,15 @@ def r1(ctx):
         prov = src(d[0].value) if d else None
         ok = prov is not None and prov.endswith('.get_site_location()')
     ctx.emit('C08-R1', ok, TAGGING, asg[0] if asg else loop, f'the tested site is `{prov}` of the first fragment that has a site', key='site-provenance')
-    # the filter is active exactly when a region is given
-    guards = []
-    mod = ctx.ix.module(TAGGING)
-    p = mod.parent[cands[0]]
-    while p is not None and p is not loop:
-        if isinstance(p, ast.If):
-            guards.append(src(p.test))
-        p = mod.parent[p]
-    ctx.emit('C08-R1', 'fetch_start is not None' in guards, TAGGING, cands[0], f'ownership filter is applied when a region is given (guards: {guards})', key='filter-active', nontrivial=False)
+    # the filter is active whenever a region is given: the reach condition of the ownership test inside the molecule loop holds under
+    # (fetch_start is not None, fetching) - however the two guards are nested or merged
+    conds = reach_conds(loop.body, cands[0]) or []
+    guards = [src(t_) + ('' if pol else ' [negated]') for t_, pol in conds if not (names_in(t_) & {sitev[0]} | (set(contv) & names_in(t_)))]
+    at = mk_atoms({'fetch_start is not None': True, 'fetching': True})
+    vals = [eval3(t_, {}, at) for t_, pol in conds if not (names_in(t_) & ({sitev[0]} | set(contv)))]
+    pols = [pol for t_, pol in conds if not (names_in(t_) & ({sitev[0]} | set(contv)))]
+    active = all(v is not UNK and bool(v) == pol for v, pol in zip(vals, pols))
+    ctx.emit('C08-R1', active, TAGGING, cands[0], f'ownership filter is applied when a region is given (guards: {guards})', key='filter-active', nontrivial=False)
 
 
 @rule('C08', 'C08-R2', 'a job stops only when the molecule site reached the end of its FETCH window (not the bin end)')
